@@ -454,8 +454,65 @@ func ruleOwnParams(c *Ctx, r *R) {
 				r.discharged(key, op.param.Pos(), "closed-here on every path")
 			}
 		case "wrapped":
+			// ... on EVERY return: a path that returns something else (an Empty() shortcut for n <= 0) drops the stream it took
+			// ownership of - nobody will ever close it
+			wrappers := map[ssa.Value]bool{}
+			for _, u := range uses {
+				if u.kind == "wrapped" && u.strct != nil {
+					for cp := range copiesOf(u.strct) {
+						wrappers[cp] = true
+					}
+				}
+			}
+			var dropRet *ssa.Return
+			instrs(op.fn, func(_ *ssa.BasicBlock, _ int, in ssa.Instruction) {
+				ret, ok := in.(*ssa.Return)
+				if !ok || len(ret.Results) == 0 {
+					return
+				}
+				for _, lf := range valueLeaves(returnedValue(ret, 0), nil, 0) {
+					v := lf.v
+					if mi, ok := v.(*ssa.MakeInterface); ok {
+						v = mi.X
+					}
+					if !wrappers[v] {
+						dropRet = ret
+					}
+				}
+			})
+			if dropRet != nil {
+				r.violated(key, retPos(dropRet), "a path returns something other than the wrapper that holds the owned stream "+op.param.Name()+" (and does not close it): the stream is dropped and never closed")
+				break
+			}
 			r.discharged(key, op.param.Pos(), "wrapped: "+strings.Join(details, ", ")+" (the wrapper's Close is checked by C09.close-forwards)")
 		case "handed":
+			// ... on every return
+			var handCalls []ssa.Instruction
+			for _, u := range uses {
+				if u.kind == "handed" {
+					handCalls = append(handCalls, u.in)
+				}
+			}
+			var dropRet *ssa.Return
+			instrs(op.fn, func(b *ssa.BasicBlock, _ int, in ssa.Instruction) {
+				ret, ok := in.(*ssa.Return)
+				if !ok {
+					return
+				}
+				handed := false
+				for _, hc := range handCalls {
+					if hc.Block() == b || hc.Block().Dominates(b) {
+						handed = true
+					}
+				}
+				if !handed {
+					dropRet = ret
+				}
+			})
+			if dropRet != nil && len(handCalls) == 1 {
+				r.violated(key, retPos(dropRet), "a path returns without having handed the owned stream "+op.param.Name()+" on (and does not close it): the stream is dropped and never closed")
+				break
+			}
 			r.discharged(key, op.param.Pos(), strings.Join(details, ", "))
 		case "goroutine":
 			ruleOwnGoroutine(c, r, op, key, uses)
